@@ -321,13 +321,31 @@ def handle_disconnect_contract(world, target, server_suffix):
 def handle_emit_contract(world, target, base_suffix):
     m = lambda c: c.a.message
     g = lambda c, k: z3.If(smt.vhas(m(c), A(k)), smt.vget(m(c), A(k)), NONE)
+
+    def applied_emit(c):
+        d = delegated(c, base_suffix, dict(event=smt.vget(m(c), A('event')), data=smt.vget(m(c), A('data')), namespace=g(c, 'namespace'),
+                                           room=g(c, 'room'), skip_sid=g(c, 'skip_sid')), 'return')
+        # the acknowledgement goes back to the host named in the message (and to nobody when it names none): the local callback is
+        # _return_callback bound to exactly that host id and to the callback triple of the message
+        calls = [n for n in c.ctx.notes if n[0] == 'called' and n[1].endswith(base_suffix)]
+        if len(calls) == 1:
+            cb = c.ctx.lookup('callback')          # the local the body passes as callback= (the call-site value is boxed)
+            from pyvc.vals import Fn
+            if isinstance(cb, Fn) and cb.kind == 'partial':
+                items = cb.args.items() if cb.args.fixed_len() is not None else None
+                first = c.eng.seq_at(c.ctx, cb.args, z3.IntVal(0))
+                d['acknowledgement-relayed-to-the-host-the-message-names'] = z3.And(
+                    z3.BoolVal(isinstance(cb.func, Fn) and getattr(cb.func, 'name', '') == '_return_callback'), first == g(c, 'host_id'))
+            elif isinstance(cb, S):
+                d['no-callback-unless-the-message-carries-one'] = cb.t == NONE
+            else:
+                d['callback-is-the-relay-or-none'] = z3.BoolVal(False)
+        return d
     wf = lambda c: z3.And(smt.vhas(m(c), A('event')), smt.vhas(m(c), A('data')))
     return Contract(
         target=target, schema=world, self_obj='manager', params={'message': 'V'},
         requires=lambda c: dict(base_req(c), **{'message-is-a-dict': smt.kind(c.a.message) == smt.K_DICT}),
-        cases=[Case('applies-the-emit-to-the-local-clients', when=wf,
-                    post=lambda c: delegated(c, base_suffix, dict(event=smt.vget(m(c), A('event')), data=smt.vget(m(c), A('data')), namespace=g(c, 'namespace'),
-                                                                  room=g(c, 'room'), skip_sid=g(c, 'skip_sid')), 'return')),
+        cases=[Case('applies-the-emit-to-the-local-clients', when=wf, post=lambda c: applied_emit(c)),
                Case('incomplete-message', when=lambda c: z3.Not(wf(c)), kind='raise', exc='Exception', update=lambda c: None, implicit_ok=True),
                Case('callback-field-of-the-wrong-type', when=lambda c: z3.And(smt.vhas(m(c), A('callback')), smt.vget(m(c), A('callback')) != NONE),
                     kind='raise', exc='TypeError', update=lambda c: None),
